@@ -847,7 +847,34 @@ def rule_waker(ck, N):
             if isinstance(n.ast, (ast.Assign, ast.AugAssign, ast.Delete)) and any(p.endswith("[]") and p[:-2] in maps for p in q.assigned_paths(n.ast)):
                 return True
             return any(isinstance(c.func, ast.Attribute) and q.dotted(c.func.value) in maps and c.func.attr in ("pop", "popitem", "clear", "update", "setdefault", "__setitem__", "__delitem__") for c in q.calls(n.ast))
-        k = require_after(ck, "C40.wake-on-change", fi, is_mut, is_wake_node,
+        # pop(fd, default) removes only if the fd was registered: a path on which nothing was removed needs no wake.  Such
+        # conditional removals are decided on their own: all paths wake -> fine; otherwise the shape is not recognised.
+        def is_soft(n, fi=fi):
+            return n.kind == "stmt" and not (isinstance(n.ast, (ast.Assign, ast.AugAssign, ast.Delete)) and any(p.endswith("[]") and p[:-2] in maps for p in q.assigned_paths(n.ast))) and any(
+                isinstance(c, ast.Call) and isinstance(c.func, ast.Attribute) and q.dotted(c.func.value) in maps and c.func.attr == "pop" and len(c.args) == 2 for c in q.calls(n.ast))
+        soft = fi.cfg.stmt_nodes(is_soft)
+        if soft:
+            class _Probe:
+                rules = ck.rules
+                def __init__(self):
+                    self.res = []
+                def ob(self, rule, fi_, node, ok, what, **kw):
+                    self.res.append(ok)
+                    return ok
+            pr = _Probe()
+            require_after(pr, "C40.wake-on-change", fi, is_soft, is_wake_node, "probe")
+            if not all(pr.res):
+                if not fi.cfg.stmt_nodes(lambda n: is_wake_node(n)):
+                    for sn in soft:
+                        ck.ob("C40.wake-on-change", fi, sn.ast, False, "a change of the reader/writer maps wakes the selector thread on every normal path (else select keeps waiting on the old sets)")
+                else:
+                    raise AnalysisError("%s: removal with pop(fd, default) followed by a conditional wake: shape not recognised" % fi.qualname)
+            else:
+                for sn in soft:
+                    ck.ob("C40.wake-on-change", fi, sn.ast, True, "a change of the reader/writer maps wakes the selector thread on every normal path (else select keeps waiting on the old sets)")
+            cnt += len(soft)
+        is_mut_hard = lambda n, is_mut=None: False
+        k = require_after(ck, "C40.wake-on-change", fi, (lambda n, f_=is_mut, s_=is_soft: f_(n) and not s_(n)), is_wake_node,
                           "a change of the reader/writer maps wakes the selector thread on every normal path (else select keeps waiting on the old sets)")
         cnt += k
     ck.floor("C40.wake-on-change", cnt, 4, "map mutation sites (add/remove reader/writer)")
